@@ -67,8 +67,12 @@ def build_lexicon(lid, g):
         sp = g.get('split', 0)          # real nodes of this mask are stored in a second queried lexicon <lid>b
         ps = [mk.synset(f'{lid}-{i}', pos[i], _ili(lid, i)) for i in range(n) if g['real'] >> i & 1 and not sp >> i & 1]
         ps2 = [mk.synset(f'{lid}-{i}', pos[i], _ili(lid, i)) for i in range(n) if g['real'] >> i & 1 and sp >> i & 1]
-        return ([mk.lexicon(lid, synsets=ps), mk.lexicon(q, synsets=qs)]
-                + ([mk.lexicon(lid + 'b', synsets=ps2)] if sp else [])), edges, hypo
+        second = []
+        if sp and g.get('splitext'):    # ... which is a lexicon extension of <lid>
+            second = [mk.lexicon(lid + 'b', extends={'id': lid, 'version': '1'}, synsets=ps2)]
+        elif sp:
+            second = [mk.lexicon(lid + 'b', synsets=ps2)]
+        return [mk.lexicon(lid, synsets=ps), mk.lexicon(q, synsets=qs)] + second, edges, hypo
     if 'ext' in g:
         # extension mode: the nodes of mask ext['nodes'] and the edges of mask ext['edges'] (index into the edge
         # list; plus every edge touching an extension node) are declared by the lexicon extension <lid>x, the
@@ -461,6 +465,12 @@ def space(tier, seed):
         gs.append({'n': 3, 'loops': True, 'h': h, 'real': 7, 'split': 6})
     for h in (dag_masks(4) if tier == 'quick' else range(1 << 12)):
         gs.append({'n': 4, 'loops': False, 'h': h, 'real': 3, 'split': 2})
+    # ... and with the second lexicon being an extension of the first, queried together or in default mode
+    for h in range(1 << 9):
+        gs.append({'n': 3, 'loops': True, 'h': h, 'real': 3, 'split': 2, 'splitext': True})
+        gs.append({'n': 3, 'loops': True, 'h': h, 'real': 3, 'split': 2, 'splitext': True, 'mode': 'default'})
+        if tier == 'thorough':
+            gs.append({'n': 3, 'loops': True, 'h': h, 'real': 7, 'split': 4, 'splitext': True, 'mode': 'default'})
     # extension mode: part of the graph (one node or none, one edge / all edges / none beyond the node's)
     # is contributed by a lexicon extension; seen with and without the extension in scope
     for n, hs in ((3, range(1, 1 << 6)), (4, dag_masks(4) if tier == 'quick' else range(1, 1 << 12))):
